@@ -15,6 +15,14 @@ comparison is between two independently expanded definitions of one package. Qui
 built; thorough-only shards are optional dependencies behind the cargo feature `thorough`, and the
 non-Box containers are `#[cfg(feature = "thorough")]` inside the shards.
 
+Element / payload edits: bases `cb_arg`, `iter_arg`, `elems`, `grp_cb` carry `OpaqueCallback<T>`, `CIterator<T>`,
+`&[T]`, `Option<T>`, `Result<T, ()>`; the edit kinds `arg_elem` / `ret_elem` change only T (u32 -> u64, u32 -> the
+#[repr(C)] struct `Pair`) and are judged like any other C type change.
+
+Call-sequence families (`FAMILIES`, section `sequences` of the harness): per family the base A, its identical
+twin A', one single-edit twin B and an unrelated base C; the harness enumerates all call sequences of length
+<= SEQ_DEPTH over them in one process (the verdict must not depend on earlier calls).
+
 The expectation of an edit is decided HERE on the level of C types (the level the property speaks
 about): an edit is *judged* (verdict must not be Valid) iff it changes a method's presence, name,
 order, receiver kind, an argument's or the return value's C type, or the set / order of a group's
